@@ -143,6 +143,17 @@ func (c *Client) validateVirtualChannelSettlementProposal(
 		return errors.New("virtual channel must not be de-allocated after update")
 	}
 
+	// Assert that all other locked funds stay as they are.
+	expectedLocked := make([]channel.SubAlloc, 0, len(parent.state().Locked))
+	for _, l := range parent.state().Locked {
+		if l.ID != subAlloc.ID {
+			expectedLocked = append(expectedLocked, l)
+		}
+	}
+	if !channel.SubAllocsEqual(expectedLocked, prop.State.Locked) {
+		return errors.New("invalid locked funds")
+	}
+
 	if prop.Final.State.NumParts() != len(subAlloc.IndexMap) {
 		return errors.New("invalid number of balances")
 	}
